@@ -614,7 +614,8 @@ class CollapseAmbiguities(Transformer):
 
     """
     def _ambig(self, options):
-        return sum(options, [])
+        # An alternative that is neither a tree nor a token (the None of an unmatched [..] inlined by a ?rule) stays as it is
+        return sum((o if isinstance(o, list) else [o] for o in options), [])
 
     def __default__(self, data, children_lists, meta):
         # Children that are neither trees nor tokens (such as the None placeholders of [..]) stay as they are
